@@ -92,7 +92,7 @@ func C02(c *Ctx) {
 			c.hijackHandlerShape(w.Handler)
 		}
 	}
-	c.eventsCallShape()
+	c.eventsCallShape("C02")
 
 	// (4) session invariant for session-held codes
 	c.smsInvariant()
@@ -169,7 +169,7 @@ func (c *Ctx) hijackHandlerShape(h *ssa.Function) {
 
 // eventsCallShape: (*Events).call returns handled=true iff some handler
 // interrupted, and aborts on error.
-func (c *Ctx) eventsCallShape() {
+func (c *Ctx) eventsCallShape(pfx string) {
 	r := c.R
 	// the dispatcher is whichever repository function FireBefore/FireAfter run
 	// the registered handlers in (themselves, or a helper they call)
@@ -204,15 +204,15 @@ func (c *Ctx) eventsCallShape() {
 		}
 		visit(c.P.Func(entry), 0)
 		if !found {
-			r.Bad("C02.events-call", entry, "handler invocation", "-", "no invocation of the registered handlers found below "+entry)
+			r.Bad(pfx+".events-call", entry, "handler invocation", "-", "no invocation of the registered handlers found below "+entry)
 		}
 	}
 	for _, fn := range dispatchers {
-		c.dispatchShape(fn, isHandlerCall)
+		c.dispatchShape(pfx, fn, isHandlerCall)
 	}
 }
 
-func (c *Ctx) dispatchShape(fn *ssa.Function, isHandlerCall func(ssa.CallInstruction) bool) {
+func (c *Ctx) dispatchShape(pfx string, fn *ssa.Function, isHandlerCall func(ssa.CallInstruction) bool) {
 	r := c.R
 	name := FuncName(fn)
 	okShape := true
@@ -292,7 +292,66 @@ func (c *Ctx) dispatchShape(fn *ssa.Function, isHandlerCall func(ssa.CallInstruc
 		okShape = false
 		detail = "no handler invocation found"
 	}
-	r.Check(okShape && nret > 0, "C02.events-call", name, "handled accumulation", c.P.Pos(fn.Pos()), "handled is a monotone accumulation over handler interrupts; handler errors abort", detail)
+	// every registered handler runs: the loop around the invocation is left
+	// only when the list is exhausted, or towards an error return
+	reach := func(from *ssa.BasicBlock) map[*ssa.BasicBlock]bool {
+		seen := map[*ssa.BasicBlock]bool{}
+		work := []*ssa.BasicBlock{from}
+		for len(work) > 0 {
+			b := work[len(work)-1]
+			work = work[:len(work)-1]
+			for _, s := range b.Succs {
+				if !seen[s] {
+					seen[s] = true
+					work = append(work, s)
+				}
+			}
+		}
+		return seen
+	}
+	isLen := func(v ssa.Value) bool {
+		call, ok := v.(*ssa.Call)
+		if !ok {
+			return false
+		}
+		bi, ok := call.Call.Value.(*ssa.Builtin)
+		return ok && bi.Name() == "len"
+	}
+	for _, call := range Calls(fn) {
+		if !isHandlerCall(call) {
+			continue
+		}
+		hb := call.Block()
+		fwd := reach(hb)
+		if !fwd[hb] {
+			continue // not in a loop (a single handler invoked directly)
+		}
+		inLoop := map[*ssa.BasicBlock]bool{}
+		for b := range fwd {
+			if reach(b)[hb] {
+				inLoop[b] = true
+			}
+		}
+		for b := range inLoop {
+			for _, s := range b.Succs {
+				if inLoop[s] {
+					continue
+				}
+				if f, ok := EdgeFact(b, s); ok {
+					if bo, isB := f.Cond.(*ssa.BinOp); isB && (isLen(bo.X) || isLen(bo.Y)) {
+						continue // the list is exhausted
+					}
+				}
+				q := PathQuery{StartBlock: s, StartPred: b, GoalP: c.nonErrorReturn}
+				if p := q.Find(); p != nil || c.blockNonErrorReturn(s) {
+					r.Bad(pfx+".events-all", name, "loop exit "+posOfBlock(c, b), posf(c, call), "the dispatcher can leave the loop over the registered handlers without an error before the list is exhausted: a handler registered later (a veto, the second-factor hijack) does not run and the event reports \"not handled\"", c.P.DescribePath(p)...)
+					okShape = false
+					detail = "handlers can be skipped"
+				}
+			}
+		}
+	}
+	r.Check(okShape && nret > 0, pfx+".events-call", name, "handled accumulation", c.P.Pos(fn.Pos()), "handled is a monotone accumulation over handler interrupts; handler errors abort", detail)
 }
 
 // smsInvariant: PAIR(PutSession(K) => Put|Del(secret)) for the keys that
@@ -404,4 +463,24 @@ func (c *Ctx) presenceRule(rule string) {
 		}
 	}
 	r.Extra["session_secret_compares"] = n
+}
+
+// blockNonErrorReturn: block b itself ends in a return that is not certainly
+// an error (PathQuery starts scanning after the start block's phis, so this
+// covers a start block that is the return).
+func (c *Ctx) blockNonErrorReturn(b *ssa.BasicBlock) bool {
+	if len(b.Instrs) == 0 {
+		return false
+	}
+	ret, ok := b.Instrs[len(b.Instrs)-1].(*ssa.Return)
+	return ok && !c.isErrorExit(ret)
+}
+
+func posOfBlock(c *Ctx, b *ssa.BasicBlock) string {
+	for i := len(b.Instrs) - 1; i >= 0; i-- {
+		if p := c.P.InstrPos(b.Instrs[i]); p != "-" && p != "" {
+			return p
+		}
+	}
+	return "-"
 }
